@@ -1,6 +1,9 @@
 package fsm
 
 import (
+	"bytes"
+	"errors"
+
 	"github.com/canopy-network/canopy/lib"
 	"github.com/canopy-network/canopy/lib/crypto"
 	"google.golang.org/protobuf/types/known/anypb"
@@ -123,6 +126,16 @@ func (s *StateMachine) CheckTx(transaction []byte, txHash string, batchVerifier 
 	if err = tx.CheckBasic(); err != nil {
 		return
 	}
+	// the identity of a transaction is the hash of its raw bytes while its signature covers the
+	// canonical re-encoding of its content: only the canonical encoding may be accepted, otherwise
+	// every other encoding of the same signed content is a 'new' transaction (replay)
+	canonical, err := lib.Marshal(tx)
+	if err != nil {
+		return
+	}
+	if !bytes.Equal(canonical, transaction) {
+		return nil, lib.ErrUnmarshal(errors.New("non-canonical transaction encoding"))
+	}
 	if s.Metrics != nil {
 		s.Metrics.CheckTxDecodeTime.Observe(time.Since(decodeStartTime).Seconds())
 	}
@@ -228,6 +241,11 @@ func (s *StateMachine) CheckSignature(tx *lib.Transaction, authorizedSigners [][
 	publicKey, e := crypto.NewPublicKeyFromBytes(tx.Signature.PublicKey)
 	if e != nil {
 		return nil, ErrInvalidPublicKey(e)
+	}
+	// the public key is not covered by the signature: accept only its canonical serialization
+	// (e.g. not the 65-byte form of a 64-byte ethereum key, not a re-encoded multisig key)
+	if !bytes.Equal(publicKey.Bytes(), tx.Signature.PublicKey) {
+		return nil, ErrInvalidPublicKey(errors.New("non-canonical public key encoding"))
 	}
 	// Legacy "RLP" was historically an ordinary memo for non-Ethereum keys.
 	// RLP.V2 is reserved and always requires an Ethereum key.
